@@ -479,7 +479,7 @@ Proof.
   rewrite seq_q. cbn [map concat].
   rewrite (keep_mask 9), (keep_mask 10), (keep_mask 11), keep_castle, (keep_king 13), (keep_mask 14) by tauto.
   rewrite comp_9, comp_10, comp_11, comp_13, comp_14.
-  cbn [app]. rewrite app_nil_r, <- !app_assoc. reflexivity.
+  rewrite app_nil_l, app_nil_r, <- !app_assoc. reflexivity.
 Qed.
 
 Lemma ev_nq_half :
@@ -545,8 +545,9 @@ Proof.
   destruct (mtype m =? ENPASSANT); [destruct (file_of (mfrom m) <? file_of (mto m)); reflexivity|].
   destruct (N.eqb_spec (mover p m) PAWN) as [Ep|Ep].
   - rewrite Ep. change (PAWN =? KING) with false. cbv iota.
-    repeat match goal with |- context [if ?x then _ else _] =>
-      match x with context [cls] => fail 1 | _ => destruct x end end; reflexivity.
+    destruct (file_of (mfrom m) =? file_of (mto m)); [|destruct (file_of (mto m) <? file_of (mfrom m)); destruct (mtype m =? PROMOTION); reflexivity].
+    destruct (mtype m =? PROMOTION); [destruct (prom_nq && ((mprom m =? QUEEN) || (mprom m =? KNIGHT))); reflexivity|].
+    destruct (zabs_diff (rank_of (mfrom m)) (rank_of (mto m)) =? 2); reflexivity.
   - destruct (mover p m =? KING); destruct (piece_at p (mto m) =? 0); reflexivity.
 Qed.
 
